@@ -1523,6 +1523,14 @@ class Sim:
             # the command line reaches the process as bytes (UTF-8 ones, from today's shells and
             # build scripts); CPython decodes them with the locale's encoding and surrogateescape
             argv = [a.encode("utf-8", "surrogateescape").decode(self.encoding, "surrogateescape") if not a.isascii() else a for a in argv]
+        if env.get("added_unit"):
+            # a unit header that was added to the tree since the previous invocation
+            from . import addedunit as _au
+
+            for relname, text in _au.FILES.items():
+                ap = os.path.join(self.repo, "au/code", relname)
+                self.overlay.inodes.setdefault(ap, _Inode(text.encode("utf-8")))
+                self.overlay.removed.discard(ap)
         if sel.get("user_main"):
             # the user's own header, planted in the simulated file system and given as a main file
             from . import usermain as _um
